@@ -62,58 +62,270 @@ def is_static(ty):
     return isinstance(ty, tuple) and ty[0] == "static"
 
 
+def lty(elt):
+    """type of a list with elements of type elt (canonical names for lists of names / bools)"""
+    return {"name": "names", "bool": "bools"}.get(elt, ("list", elt))
+
+
 def is_res(ty):
     return isinstance(ty, tuple) and ty[0] == "res"
 
 
 # (python name, gallina name, [(param, type)], return type, raises, ignore set)
+#   Only the PUBLIC functions are listed (looked up by name: the API); every private helper they
+#   call is found through the call graph and translated in place, so helpers may be extracted,
+#   renamed, merged or removed freely.
 #   param type "none": the argument is not passed (None) at the modelled call sites
 #   param type ("role", k): a column of the long table, by role (0 instance, 1 time, 2 dim, 3 value)
 FUNCS = [
-    dict(py="_make_column_names", params=[("column_count", "nat")], ret="names"),
-    dict(py="_cell_is_series_or_array", params=[("cell", "cell")], ret="bool"),
-    dict(py="_nested_cell_mask", params=[("X", "frame")], ret="boolframe"),
     dict(py="are_columns_nested", params=[("X", "frame")], ret="bools"),
     dict(py="is_nested_dataframe", params=[("X", "frame")], ret="bool"),
-    dict(py="_convert_series_cell_to_numpy", params=[("cell", "ncell")], ret="ncell"),
     dict(py="from_3d_numpy_to_2d_array", params=[("X", "arr3")], ret="tab2"),
     dict(py="from_3d_numpy_to_nested",
          params=[("X", "arr3"), ("column_names", "onames"), ("cells_as_numpy", "bool")],
-         ret="nested", raises=True, ignore={"msg"}),
+         ret="nested", raises=True),
     dict(py="from_2d_array_to_nested",
          params=[("X", "tab2"), ("index", "none"), ("columns", "none"), ("time_index", "none"),
                  ("cells_as_numpy", "bool")],
          ret="nested", raises=True),
     dict(py="from_multi_index_to_3d_numpy",
          params=[("X", "mi"), ("instance_index", "olevel"), ("time_index", "olevel")],
-         ret="arr3", raises=True, ignore={"msg"}),
+         ret="arr3", raises=True),
     dict(py="from_multi_index_to_nested",
          params=[("multi_ind_dataframe", "mi"), ("instance_index", "olevel"),
                  ("cells_as_numpy", "bool")],
-         ret="nested", raises=True, ignore={"col_msg"}),
+         ret="nested", raises=True),
     dict(py="from_long_to_nested",
          params=[("X_long", "long"), ("instance_column_name", ("role", 0)),
                  ("time_column_name", ("role", 1)), ("dimension_column_name", ("role", 2)),
                  ("value_column_name", ("role", 3)), ("column_names", "onames")],
          ret="nested", raises=True),
     dict(py="from_nested_to_2d_array", params=[("X", "nested"), ("return_numpy", "bool")],
-         ret="tab2", raises=True, ignore={"columns", "time_index"}),
+         ret="tab2", raises=True),
     dict(py="from_nested_to_multi_index",
          params=[("X", "nested"), ("instance_index", "olabel"), ("time_index", "olabel")],
-         ret="mi", raises=True, ignore={"time_index_name", "instance_index_name"}),
+         ret="mi", raises=True),
     dict(py="from_3d_numpy_to_multi_index",
          params=[("X", "arr3"), ("instance_index", "labels"), ("time_index", "labels"),
                  ("column_names", "onames")],
-         ret="mi", raises=True, ignore={"msg", "index_rename_dict"}),
+         ret="mi", raises=True),
     dict(py="from_nested_to_long",
          params=[("X", "nested"), ("instance_column_name", "labels"),
                  ("time_column_name", "labels"), ("dimension_column_name", "labels")],
-         ret="long", raises=True, ignore={"col_rename_dict"}),
+         ret="long", raises=True),
     dict(py="from_nested_to_3d_numpy", params=[("X", "nested")], ret="arr3", raises=True),
 ]
 for _f in FUNCS:
     _f["coq"] = "gen_" + _f["py"].lstrip("_")
 BY_PY = {f["py"]: f for f in FUNCS}
+
+
+# ---------------------------------------------------------------------------------------------
+# Which statements only compute LABELS the Coq containers do not carry (index level names, labels
+# of 2-D DataFrames, column labels of the long table, exception messages)?  Decided by data flow,
+# not by variable names: a local variable is a label variable iff every use of it is (a) in a label
+# sink - `rename(columns=)`, `rename_axis(index=)`, `from_product(names=)`, `pd.Series(name=)`, the
+# arguments of a raised exception, `.columns = ` / `.index = ` of a frame whose labels are not
+# modelled - or (b) in the definition of another label variable / the test of an `if` or the
+# iterable of a `for` that only contains such definitions.  Statements defining label variables must
+# be side-effect free (calls from the pure tables below, mutators only on label variables).
+
+SINK_KW = {"rename": "columns", "rename_axis": "index", "from_product": "names", "Series": "name"}
+PURE_FUNCS = {"hasattr", "len", "range", "enumerate", "zip", "str", "isinstance", "list", "dict",
+              "tuple", "type", "repr", "int", "bool", "np.arange", "pd.RangeIndex"}
+PURE_METHODS = {"items", "iteritems", "join", "format", "keys", "values", "get", "copy", "tolist",
+                "to_numpy", "unique", "get_level_values"}
+MUTATORS = {"append", "extend", "update", "setdefault", "insert"}
+
+
+class Retry(Exception):
+    pass
+
+
+def _base(x):
+    while isinstance(x, (ast.Subscript, ast.Attribute)):
+        x = x.value
+    return x
+
+
+def _targets(st):
+    tg = st.targets if isinstance(st, ast.Assign) else [st.target]
+    out = []
+    for t in tg:
+        out += list(t.elts) if isinstance(t, ast.Tuple) else [t]
+    return out
+
+
+def _sink_free_loads(e):
+    """names loaded in e outside the label sinks"""
+    out = set()
+
+    def go(n):
+        if isinstance(n, ast.Call):
+            fname = n.func.attr if isinstance(n.func, ast.Attribute) else getattr(n.func, "id", None)
+            go(n.func)
+            for a in n.args:
+                go(a)
+            for k in n.keywords:
+                if not (fname in SINK_KW and k.arg == SINK_KW[fname]):
+                    go(k.value)
+            return
+        if isinstance(n, ast.Name) and isinstance(n.ctx, ast.Load):
+            out.add(n.id)
+        for c in ast.iter_child_nodes(n):
+            go(c)
+    go(e)
+    return out
+
+
+def _self_rename(st):
+    """x = x.rename(columns=E) / x = x.rename_axis(index=E): returns (x, method) or None"""
+    if isinstance(st, ast.Assign) and len(st.targets) == 1 and isinstance(st.targets[0], ast.Name) \
+            and isinstance(st.value, ast.Call) and isinstance(st.value.func, ast.Attribute) \
+            and isinstance(st.value.func.value, ast.Name) \
+            and st.value.func.value.id == st.targets[0].id and not st.value.args \
+            and len(st.value.keywords) == 1 \
+            and SINK_KW.get(st.value.func.attr) == st.value.keywords[0].arg \
+            and st.value.func.attr in ("rename", "rename_axis"):
+        return st.targets[0].id, st.value.func.attr
+    return None
+
+
+def _helper_pure(name, module, depth=0):
+    fn = module.get(name)
+    if fn is None or depth > 3:
+        return False
+    locs = {t.id for n in ast.walk(fn) if isinstance(n, (ast.Assign, ast.AugAssign))
+            for t in _targets(n) if isinstance(t, ast.Name)}
+    for n in ast.walk(fn):
+        if isinstance(n, (ast.Assign, ast.AugAssign)) and \
+                not all(isinstance(t, ast.Name) for t in _targets(n)):
+            return False
+        if isinstance(n, (ast.Global, ast.Nonlocal, ast.Delete, ast.With, ast.While)):
+            return False
+    return all(_pure(n, locs, module, depth + 1) for n in ast.walk(fn) if isinstance(n, ast.Call))
+
+
+def _pure(e, cand, module, depth=0):
+    for n in ast.walk(e):
+        if not isinstance(n, ast.Call):
+            continue
+        f = n.func
+        src = u(f)
+        if src in PURE_FUNCS:
+            continue
+        if isinstance(f, ast.Name) and f.id in module and _helper_pure(f.id, module, depth):
+            continue
+        if isinstance(f, ast.Attribute):
+            if f.attr in PURE_METHODS:
+                continue
+            if f.attr in MUTATORS and isinstance(f.value, ast.Name) and f.value.id in cand:
+                continue
+        return False
+    return True
+
+
+def infer_labels(fn, label_params, module, real_sinks):
+    """(label variables, ids of the label-only statements, ids of the attribute-assignment sinks)"""
+    params = {a.arg for a in fn.args.args}
+    assigned = set()
+    for n in ast.walk(fn):
+        if isinstance(n, (ast.Assign, ast.AugAssign)):
+            for t in _targets(n):
+                b = _base(t)
+                if isinstance(b, ast.Name) and isinstance(t, ast.Name):
+                    assigned.add(b.id)
+        elif isinstance(n, ast.For):
+            for t in ast.walk(n.target):
+                if isinstance(t, ast.Name):
+                    assigned.add(t.id)
+    cand = (assigned - params) | set(label_params)
+    labels, sinks = set(), set()
+
+    def leaf(st):
+        if isinstance(st, ast.Expr) and isinstance(st.value, ast.Constant):
+            return True
+        if isinstance(st, (ast.Assign, ast.AugAssign)):
+            if _self_rename(st):
+                return True
+            tg = _targets(st)
+            bases = [_base(t) for t in tg]
+            if len(tg) == 1 and isinstance(tg[0], ast.Attribute) and tg[0].attr in ("columns", "index") \
+                    and isinstance(bases[0], ast.Name) and bases[0].id not in cand:
+                if id(st) in real_sinks:
+                    return False
+                if _pure(st.value, cand, module):
+                    sinks.add(id(st))
+                    return True
+                return False
+            return all(isinstance(b, ast.Name) and b.id in cand for b in bases) \
+                and _pure(st.value, cand, module)
+        if isinstance(st, ast.Expr) and isinstance(st.value, ast.Call) \
+                and isinstance(st.value.func, ast.Attribute) and st.value.func.attr in MUTATORS \
+                and isinstance(st.value.func.value, ast.Name) and st.value.func.value.id in cand:
+            return _pure(st.value, cand, module)
+        return False
+
+    def label_only(st):
+        if isinstance(st, ast.If):
+            return all(label_only(x) for x in st.body + st.orelse) \
+                and _pure(st.test, cand, module)
+        if isinstance(st, ast.For):
+            tn = [t.id for t in ast.walk(st.target) if isinstance(t, ast.Name)]
+            return not st.orelse and all(t in cand for t in tn) \
+                and all(label_only(x) for x in st.body) and _pure(st.iter, cand, module)
+        return leaf(st)
+
+    def real_uses(st, out, kill):
+        """names used for real by st (which is not label-only), and label candidates it defines"""
+        if label_only(st):
+            return
+        if isinstance(st, ast.If):
+            out |= _sink_free_loads(st.test)
+            for x in st.body + st.orelse:
+                real_uses(x, out, kill)
+        elif isinstance(st, ast.For):
+            out |= _sink_free_loads(st.iter)
+            kill |= {t.id for t in ast.walk(st.target) if isinstance(t, ast.Name)}
+            for x in st.body:
+                real_uses(x, out, kill)
+        elif isinstance(st, ast.Try):
+            for x in st.body + st.orelse + st.finalbody + [y for h in st.handlers for y in h.body]:
+                real_uses(x, out, kill)
+        elif isinstance(st, ast.Raise):
+            pass                                   # exception arguments: a label sink
+        elif isinstance(st, ast.Assert):
+            out |= _sink_free_loads(st.test)       # the message: a label sink
+        else:
+            if isinstance(st, (ast.Assign, ast.AugAssign)):
+                for t in _targets(st):
+                    b = _base(t)
+                    if isinstance(b, ast.Name):
+                        kill.add(b.id)
+                    if not isinstance(t, ast.Name):
+                        out |= _sink_free_loads(t)
+                out |= _sink_free_loads(st.value)
+            else:
+                out |= _sink_free_loads(st)
+    while True:
+        out, kill = set(), set()
+        sinks.clear()
+        for st in fn.body:
+            real_uses(st, out, kill)
+        new = cand - out - kill
+        if new == cand:
+            break
+        cand = new
+    sinks.clear()
+
+    def collect(stmts):
+        for st in stmts:
+            if label_only(st) and not (isinstance(st, ast.Expr) and isinstance(st.value, ast.Constant)):
+                labels.add(id(st))
+            elif isinstance(st, (ast.If, ast.For, ast.Try)):
+                collect(st.body + getattr(st, "orelse", []))
+    collect(fn.body)
+    return cand, labels, set(sinks)
 
 
 class Fn:
@@ -122,7 +334,9 @@ class Fn:
     def __init__(self, node, cfg, notes):
         self.node = node
         self.cfg = cfg
-        self.ignore = set(cfg.get("ignore", ()))
+        self.ignore = set()      # label variables (inferred by data flow, see infer_labels)
+        self.label_stmts = set()
+        self.sink_stmts = set()
         self.notes = notes
         self.mi_levels = {}      # python variable -> (role of level 0, role of level 1)
         self.mi_level_names = {}  # python variable -> (name of level 0, name of level 1)
@@ -143,6 +357,41 @@ class Fn:
         m = getattr(self, "e_" + type(e).__name__, None)
         need(m is not None, "expression kind " + type(e).__name__, e)
         return m(e, env)
+
+    # function values: a lambda, operator.attrgetter / methodcaller, a module-level function used
+    # as a value, a conditional expression of these.  Represented by the expression they build
+    # from their arguments (substitution), translated where they are applied.
+    @staticmethod
+    def subst(node, mapping):
+        import copy
+
+        class S(ast.NodeTransformer):
+            def visit_Name(self, n):
+                return copy.deepcopy(mapping[n.id]) if n.id in mapping else n
+        return S().visit(copy.deepcopy(node))
+
+    def e_Lambda(self, e, env):
+        a = e.args
+        need(not a.vararg and not a.kwarg and not a.kwonlyargs and not a.defaults
+             and not a.posonlyargs, "lambda signature", e)
+        names = [x.arg for x in a.args]
+
+        def make(args):
+            need(len(args) == len(names), "lambda arity", e)
+            return self.subst(e.body, dict(zip(names, args)))
+        return None, ("fn", make)
+
+    def fn_value(self, e, env):
+        """the function value denoted by e, or None"""
+        if isinstance(e, ast.Name) and e.id not in env and e.id in self.cfg.get("module", {}):
+            name = e.id
+            return lambda args: ast.Call(func=ast.Name(id=name, ctx=ast.Load()), args=list(args),
+                                         keywords=[])
+        try:
+            t, ty = self.expr(e, env)
+        except Unsupported:
+            return None
+        return ty[1] if isinstance(ty, tuple) and ty[0] == "fn" else None
 
     def e_Constant(self, e, env):
         v = e.value
@@ -367,6 +616,10 @@ class Fn:
         raise Unsupported("comparison of %r and %r" % (ta, tb), e)
 
     def e_IfExp(self, e, env):
+        f1, f2 = self.fn_value(e.body, env), self.fn_value(e.orelse, env)
+        if f1 and f2:
+            test = e.test
+            return None, ("fn", lambda args: ast.IfExp(test=test, body=f1(args), orelse=f2(args)))
         cnd = self.cond(e.test, env)
         if cnd[0] == "none":
             h1, h2, e1, e2, end = self.branches(cnd, env)
@@ -492,7 +745,7 @@ class Fn:
         self.pending = saved
         if is_res(tb):
             return "(rmapM (fun %s => %s) %s)" % (pat, b, it), ("res", ("list", tb[1]))
-        return "(map (fun %s => %s) %s)" % (pat, b, it), ("list", tb)
+        return "(map (fun %s => %s) %s)" % (pat, b, it), lty(tb)
 
     # coercions between the typed views of the same Python object
     def coerce(self, t, ty, want, what):
@@ -556,6 +809,31 @@ class Fn:
             k, tk = self.val(e.keywords[0].value, env)
             need(tk == "kwargs", "**%r" % (tk,), e)
             return "(call_container %s %s %s)" % (env[f.id][0], k, a), ("res", "ncell")
+        if src in ("attrgetter", "operator.attrgetter"):
+            need(len(e.args) == 1 and not e.keywords and isinstance(e.args[0], ast.Constant)
+                 and isinstance(e.args[0].value, str) and "." not in e.args[0].value,
+                 "attrgetter arguments", e)
+            attr = e.args[0].value
+            return None, ("fn", lambda args: ast.Attribute(value=args[0], attr=attr, ctx=ast.Load()))
+        if src in ("methodcaller", "operator.methodcaller"):
+            need(e.args and isinstance(e.args[0], ast.Constant)
+                 and isinstance(e.args[0].value, str), "methodcaller arguments", e)
+            meth, margs, mkw = e.args[0].value, e.args[1:], e.keywords
+            return None, ("fn", lambda args: ast.Call(
+                func=ast.Attribute(value=args[0], attr=meth, ctx=ast.Load()),
+                args=list(margs), keywords=list(mkw)))
+        if isinstance(f, ast.Name) and f.id in env and isinstance(env[f.id][1], tuple) \
+                and env[f.id][1][0] == "fn":
+            need(not e.keywords, "keywords in the call of a function value", e)
+            return self.expr(env[f.id][1][1](list(e.args)), env)
+        if src in ("all", "any") and len(e.args) == 1 and not e.keywords:
+            t, ty = self.val(e.args[0], env)
+            need(ty in ("bools", ("list", "bool")), "%s of %r" % (src, ty), e)
+            return "(bools_%s %s)" % (src, t), "bool"
+        if src == "zip" and len(e.args) == 2 and not e.keywords:
+            a, ea = self.iterable(e.args[0], env)
+            b, eb = self.iterable(e.args[1], env)
+            return "(combine %s %s)" % (a, b), ("list", ("tuple", (ea, eb)))
         if src == "range":
             need(len(e.args) == 1 and not e.keywords, "range arity", e)
             return "(py_range %s)" % self.nat(e.args[0], env), ("list", "nat")
@@ -673,8 +951,12 @@ class Fn:
         self.inlined += 1
         frame = {"raising": self.has_raise(fn.body), "type": None, "name": fn.name}
         need(not frame["raising"] or self.raising(), "raising helper in a total function", e)
-        saved = (self.suffix, self.ignore, self.pending)
-        self.suffix, self.ignore, self.pending = "_h%d" % self.inlined, set(), []
+        saved = (self.suffix, self.ignore, self.pending, self.label_stmts, self.sink_stmts)
+        lab = [p_ for p_ in pnames if env2[p_][1] == "labels"]
+        ign, lst, _sk = infer_labels(fn, lab, self.cfg.get("module", {}), {
+            id(n) for n in ast.walk(fn) if isinstance(n, ast.Assign)})
+        self.suffix, self.ignore, self.pending = "_h%d" % self.inlined, ign, []
+        self.label_stmts, self.sink_stmts = self.label_stmts | lst, set()
         self.frames.append(frame)
 
         def fell_off(_env):
@@ -683,7 +965,7 @@ class Fn:
             text = self.seq(list(fn.body), env2, fell_off, 0)
         finally:
             self.frames.pop()
-            self.suffix, self.ignore, self.pending = saved
+            self.suffix, self.ignore, self.pending, self.label_stmts, self.sink_stmts = saved
         need(frame["type"] is not None, "helper %s returns nothing" % fn.name, e)
         text = "(%s)" % " ".join(text.split())
         return text, (("res", frame["type"]) if frame["raising"] else frame["type"])
@@ -763,6 +1045,15 @@ class Fn:
         A = e.args
         kw = {k.arg: k.value for k in e.keywords}
         need(None not in kw, "** in a method call", e)
+        if m in METHOD_SIG and not (m == "count" and ty == "bools"):
+            # positional and keyword forms of the same call are the same call
+            sig, npos = METHOD_SIG[m]
+            need(len(A) <= len(sig) and all(k in sig for k in kw), "arguments of ." + m, e)
+            bound = dict(zip(sig, A))
+            need(not (set(bound) & set(kw)), "argument given twice to ." + m, e)
+            bound.update(kw)
+            A = [bound.pop(n) for n in sig[:npos] if n in bound]
+            kw = bound
         if m == "reshape" and ty == "arr3" and not kw and len(A) == 2:
             a = self.nat(A[0], env)
             need(self.expr(A[1], env)[1] == ("static", -1), "reshape(n, -1) expected", e)
@@ -794,24 +1085,27 @@ class Fn:
         if m == "rename_axis" and isinstance(ty, tuple) and ty[0] == "xs" and len(A) == 1 \
                 and not kw and self.expr(A[0], env)[1] == ("static", None):
             return "(kser_xs_values %s %s %s)" % ty[1:], "ser1"
-        if m == "applymap" and len(A) == 1 and not kw and isinstance(A[0], ast.Name) \
-                and A[0].id in BY_PY:
-            g = BY_PY[A[0].id]
-            if ty == "frame" and g["params"][0][1] == "cell" and g["ret"] == "bool":
-                return "(frame_applymap %s %s)" % (g["coq"], t), "boolframe"
-            if ty == "nested" and g["params"][0][1] == "ncell" and g["ret"] == "ncell":
-                return "(map (map %s) (nested_cells %s))" % (g["coq"], t), "cellrows"
-        if m == "apply" and ty == "cellrows" and len(A) == 1 and list(kw) == ["axis"] \
-                and self.expr(kw["axis"], env)[1] == ("static", 1) and isinstance(A[0], ast.Lambda):
-            lam = A[0]
-            need(len(lam.args.args) == 1 and not lam.args.defaults, "lambda shape", e)
-            x = lam.args.args[0].arg
+        if m in ("applymap", "apply") and len(A) == 1 and ty in ("frame", "nested", "cellrows"):
+            fv = self.fn_value(A[0], env)
+            need(fv is not None, "function argument of ." + m, e)
+            self.fresh += 1
+            x = "x%d_" % self.fresh
+            elt = {"frame": "cell", "nested": "ncell", "cellrows": ("list", "ncell")}[ty]
+            need((m == "applymap" and not kw and ty != "cellrows") or
+                 (m == "apply" and ty == "cellrows" and list(kw) == ["axis"]
+                  and self.expr(kw["axis"], env)[1] == ("static", 1)), "arguments of ." + m, e)
             env2 = dict(env)
-            env2[x] = (self.lname(x), ("list", "ncell"))
+            env2[x] = (x, elt)
             saved, self.pending = self.pending, None
-            b, tb = self.val(lam.body, env2)
+            b, tb = self.val(fv([ast.Name(id=x, ctx=ast.Load())]), env2)
             self.pending = saved
-            return "(map (fun %s => %s) %s)" % (self.lname(x), b, t), ("list", tb)
+            if ty == "frame":
+                need(tb == "bool", "applymap of a %r-valued function on a frame" % (tb,), e)
+                return "(frame_applymap (fun %s => %s) %s)" % (x, b, t), "boolframe"
+            if ty == "nested":
+                need(tb == "ncell", "applymap of a %r-valued function" % (tb,), e)
+                return "(map (map (fun %s => %s)) (nested_cells %s))" % (x, b, t), "cellrows"
+            return "(map (fun %s => %s) %s)" % (x, b, t), ("list", tb)
         if m == "to_numpy" and not A and not kw:
             if isinstance(ty, tuple) and ty[0] == "list":
                 return t, ty                    # Series of arrays -> object array of arrays
@@ -922,11 +1216,21 @@ class Fn:
             return self.terminal(last.body) and self.terminal(last.orelse)
         return False
 
-    def only_ignored(self, st):
-        names = self.assigned([st])
-        if not names or not all(n in self.ignore for n in names):
+    def only_ignored(self, st, env):
+        """a statement that only computes labels (infer_labels); a relabelling
+        `x = x.rename(columns=...)` inside it must be of a long table / multi-index frame"""
+        if id(st) not in self.label_stmts:
             return False
-        return not any(isinstance(n, (ast.Return, ast.Raise)) for n in ast.walk(st))
+        for n in ast.walk(st):
+            if id(n) in self.sink_stmts:
+                b = _base(n.targets[0])
+                if env.get(b.id, (None, None))[1] != "tab2":
+                    raise Retry(id(n))   # assumed to be a label sink, but the frame is modelled
+            r = _self_rename(n) if isinstance(n, ast.Assign) else None
+            if r:
+                need(r[0] in env and (env[r[0]][1], r[1]) in (("long", "rename"), ("mi", "rename_axis")),
+                     "relabelling of a value of type %r" % (env.get(r[0], (None, None))[1],), n)
+        return True
 
     @staticmethod
     def merge_appends(st):
@@ -946,26 +1250,6 @@ class Fn:
                             args=[ast.IfExp(test=st.test, body=x[1], orelse=y[1])], keywords=[])
             return ast.copy_location(ast.Expr(value=call), st)
         return st
-
-    def labels_only_rename(self, st, env):
-        """`if <test on label variables>: x = x.rename(columns=<labels>)` (or rename_axis(index=))
-        on a long table / multi-index frame: changes labels the Coq containers do not carry"""
-        if not (isinstance(st, ast.If) and not st.orelse and len(st.body) == 1):
-            return False
-        b = st.body[0]
-        if not (isinstance(b, ast.Assign) and len(b.targets) == 1 and isinstance(b.targets[0], ast.Name)
-                and isinstance(b.value, ast.Call) and isinstance(b.value.func, ast.Attribute)
-                and isinstance(b.value.func.value, ast.Name)
-                and b.value.func.value.id == b.targets[0].id and not b.value.args
-                and len(b.value.keywords) == 1):
-            return False
-        x, meth, kw = b.targets[0].id, b.value.func.attr, b.value.keywords[0]
-        if x not in env or not isinstance(kw.value, ast.Name) or kw.value.id not in self.ignore:
-            return False
-        ok = (env[x][1] == "long" and meth == "rename" and kw.arg == "columns") or \
-             (env[x][1] == "mi" and meth == "rename_axis" and kw.arg == "index")
-        used = {n.id for n in ast.walk(st.test) if isinstance(n, ast.Name)}
-        return ok and used <= (self.ignore | {"len"})
 
     def ret(self, t, ty, node):
         want = self.cfg["ret"]
@@ -1008,7 +1292,7 @@ class Fn:
         if isinstance(st, ast.Expr) and isinstance(st.value, ast.Constant) \
                 and isinstance(st.value.value, str):
             return go(env)
-        if self.only_ignored(st):
+        if self.only_ignored(st, env):
             self.notes.append("%s: not modelled (labels only): %s"
                               % (self.cfg["py"], u(st).split("\n")[0][:90]))
             return go(env)
@@ -1041,10 +1325,6 @@ class Fn:
             self.notes.append("%s: `except KeyError` branch not modelled (1x1 frame holding a "
                               "1-point series with a non-zero-based index)" % self.cfg["py"])
             return self.seq(list(st.body) + rest, env, k, ind)
-        if self.labels_only_rename(st, env):
-            self.notes.append("%s: not modelled (labels only): %s"
-                              % (self.cfg["py"], " ".join(u(st).split())[:110]))
-            return go(env)
         if isinstance(st, ast.Expr) and isinstance(st.value, ast.Call) \
                 and isinstance(st.value.func, ast.Attribute) and st.value.func.attr == "append" \
                 and isinstance(st.value.func.value, ast.Name) and len(st.value.args) == 1 \
@@ -1084,7 +1364,7 @@ class Fn:
             t0, ty0 = self.expr(value, env)
             if is_static(ty0) or ty0 == ("list", "?") or (
                     isinstance(ty0, tuple) and ty0[0] in (
-                        "gen", "xs", "locrow", "nested_col", "mi_col", "levelvals", "nlevelvals",
+                        "fn", "gen", "xs", "locrow", "nested_col", "mi_col", "levelvals", "nlevelvals",
                         "mi_index", "nested_index", "iloc", "loc", "shape_of")):
                 env[tg.id] = (t0, ty0)      # no let: the name stands for the value
                 return go(env)
@@ -1142,6 +1422,8 @@ class Fn:
             d = tg.value.id
             need(d in env, "unbound " + d, st)
             dn, dty = env[d]
+            if dty != "tab2" and id(st) in self.sink_stmts:
+                raise Retry(id(st))      # assumed to be a label sink, but the frame is modelled
             if dty == "tab2":            # labels of a 2-D DataFrame are not modelled
                 self.expr(value, env) if tg.attr == "index" and u(value) != "X.index" else None
                 self.notes.append("%s: not modelled (labels only): %s" % (self.cfg["py"], u(st)))
@@ -1276,7 +1558,7 @@ class Fn:
             body = self.seq(list(sbody[:-1]), env2, ke, ind + 4)
             env4 = dict(env)
             env4[a] = (env[a][0], ("list", ety2["ty"]))
-            env4[a] = (self.lname(a), ("list", ety2["ty"]))
+            env4[a] = (self.lname(a), lty(ety2["ty"]))
             return "%slet %s := (map (fun %s =>\n%s)\n%s  %s) in\n%s" % (
                 pad, self.lname(a), pat, body, pad, it, go(env4))
 
@@ -1320,38 +1602,72 @@ class Fn:
 
         def fell_off(_env):
             raise Unsupported("%s can fall off its end" % cfg["py"])
-        body = self.seq(list(fn.body), env, fell_off, 2)
+        label_params = [p for p, ty in cfg["params"] if ty == "labels"]
+        real_sinks = set()
+        for _ in range(30):
+            self.ignore, self.label_stmts, self.sink_stmts = infer_labels(
+                fn, label_params, cfg.get("module", {}), real_sinks)
+            n_notes = len(self.notes)
+            try:
+                body = self.seq(list(fn.body), dict(env), fell_off, 2)
+                break
+            except Retry as r:
+                real_sinks.add(r.args[0])
+                del self.notes[n_notes:]
+        else:
+            raise Unsupported("label inference does not settle for " + cfg["py"])
         return "Definition %s %s : %s :=\n%s.\n" % (cfg["coq"], " ".join(binders), rty, body)
 
 
-def default_level_names(fn_node):
-    """the level names from_nested_to_multi_index gives its result when instance_index /
-    time_index are None: the string that reaches instance_index_name / time_index_name on the
-    `<argument> is None` side (assignment under an if, or a conditional expression)"""
-    param = {"instance_index_name": "instance_index", "time_index_name": "time_index"}
+METHOD_SIG = {      # method -> (parameter names, how many the handlers below take positionally)
+    "xs": (["key", "axis", "level"], 1),
+    "unstack": (["level"], 0), "get_level_values": (["level"], 1),
+    "groupby": (["by", "axis", "level"], 0), "rename_axis": (["mapper"], 1),
+    "apply": (["func", "axis"], 1), "applymap": (["func"], 1), "to_frame": (["index"], 0),
+    "pivot": (["index", "columns", "values"], 0),
+}
 
-    def when_none(v, arg):
+
+def default_level_names(fn_node):
+    """the level names from_nested_to_multi_index gives its result when its two level-name
+    arguments are None.  By role: the two variables in `names=[a, b]` of the
+    MultiIndex.from_product call that builds the result index; for each, the string that reaches
+    it on the `<parameter> is None` side (assignment under an if, or a conditional expression)."""
+    params = {a.arg for a in fn_node.args.args}
+    calls = [n for n in ast.walk(fn_node) if isinstance(n, ast.Call)
+             and u(n.func).endswith("from_product")
+             and any(k.arg == "names" for k in n.keywords)]
+    need(len(calls) == 1, "the from_product call naming the index levels")
+    nm = [k.value for k in calls[0].keywords if k.arg == "names"][0]
+    need(isinstance(nm, ast.List) and len(nm.elts) == 2, "level names list", nm)
+
+    def when_none(v):
         if isinstance(v, ast.Constant) and isinstance(v.value, str):
             return [v.value]
-        if isinstance(v, ast.Name) and v.id == arg:
+        if isinstance(v, ast.Name) and v.id in params:
             return []                   # the value on the `is not None` side
         if isinstance(v, ast.IfExp) and isinstance(v.test, ast.Compare) and len(v.test.ops) == 1 \
-                and isinstance(v.test.left, ast.Name) and v.test.left.id == arg \
+                and isinstance(v.test.left, ast.Name) and v.test.left.id in params \
                 and isinstance(v.test.comparators[0], ast.Constant) \
                 and v.test.comparators[0].value is None:
             if isinstance(v.test.ops[0], ast.Is):
-                return when_none(v.body, arg)
+                return when_none(v.body)
             if isinstance(v.test.ops[0], ast.IsNot):
-                return when_none(v.orelse, arg)
+                return when_none(v.orelse)
         raise Unsupported("level name given by " + u(v))
-    out = {}
-    for n in ast.walk(fn_node):
-        if isinstance(n, ast.Assign) and len(n.targets) == 1 and isinstance(n.targets[0], ast.Name) \
-                and n.targets[0].id in param:
-            out.setdefault(n.targets[0].id, []).extend(when_none(n.value, param[n.targets[0].id]))
-    need(set(out) == set(param) and all(len(v) == 1 for v in out.values()),
-         "default level names not found")
-    return out["instance_index_name"][0], out["time_index_name"][0]
+    out = []
+    for x in nm.elts:
+        if isinstance(x, ast.Name):
+            vals = []
+            for n in ast.walk(fn_node):
+                if isinstance(n, ast.Assign) and len(n.targets) == 1 \
+                        and isinstance(n.targets[0], ast.Name) and n.targets[0].id == x.id:
+                    vals += when_none(n.value)
+        else:
+            vals = when_none(x)
+        need(len(vals) == 1, "default name of an index level", x)
+        out.append(vals[0])
+    return out[0], out[1]
 
 
 HEADER = """(* GENERATED by /verif/translator/panel_c15.py from %s -- do not edit, never committed *)
